@@ -80,7 +80,18 @@ func guarded(f func() (string, error)) callResult {
 
 // safeCompile compiles under the watchdog.
 func safeCompile(src string, opts *pql.CompileOptions) callResult {
-	return guarded(func() (string, error) { return opts.Compile(src) })
+	r := guarded(func() (string, error) { return opts.Compile(src) })
+	if r.Hung || r.Panic != "" {
+		// Compile is a function of its input: a hang or a panic that does not
+		// happen again on the same input says something about the machine (or
+		// about C14's subject), not about this input. No verdict then.
+		again := guarded(func() (string, error) { return opts.Compile(src) })
+		if !again.Hung && again.Panic == "" {
+			again.Inconcl = true
+			return again
+		}
+	}
+	return r
 }
 
 // exitAfterHang ends the process: a spinning goroutine cannot be stopped, and
